@@ -3148,7 +3148,8 @@ func (c *Checker) checkYieldExpressionNode(node *ast.YieldExpressionNode) ast.Ex
 	if node.Value == nil {
 		typ = types.Nil{}
 	} else {
-		node.Value = c.checkExpressionWithTailPosition(node.Value, true)
+		// the generator resumes after the yield, a call in the yielded value is not a tail call
+		node.Value = c.checkExpressionWithTailPosition(node.Value, false)
 		typ = c.typeOfGuardVoid(node.Value)
 	}
 
